@@ -913,6 +913,21 @@ def build_py(spec: Any, pkg: Any, case: Dict[str, Any], trace: Optional[List[Dic
     raise ValueError(k)
 
 
+def leaf_json(x: Any) -> Any:
+    """the JSON form of a REAL leaf argument (what json.dumps(default=to_jsonable_python) writes for it): enum members by
+    value, instrumented scalar objects by their raw value, datetimes in ISO format"""
+    import datetime
+    import enum
+
+    if isinstance(x, enum.Enum):
+        return x.value
+    if hasattr(x, "raw") and type(x).__module__.endswith(SCALAR_MODULE):
+        return x.raw
+    if isinstance(x, datetime.datetime):
+        return x.isoformat()
+    return x
+
+
 def to_av(spec: Any, classes: Dict[str, List[Dict[str, Any]]]) -> Any:
     """value spec -> the AV JSON of Driver/ArgWire.lean; field keys/annotations come from the REAL
     generated input classes (`classes` = module_classes(input_types.py))"""
